@@ -20,14 +20,44 @@ func init() {
 
 // userCallSite is a call in fn that can enter user code.
 type userCallSite struct {
-	call     ssa.CallInstruction
+	call     ssa.CallInstruction // the call in fn (of the user code, or of the helper that makes it)
 	what     string
 	specific bool // not one of fmt's four dispatch interfaces
 	hook     bool
+	inner    ssa.CallInstruction // the call that enters user code (== call unless in a helper)
+	args     []ssa.Value         // its arguments, as values of fn where they come from fn
 }
 
 func (c *Ctx) userCallSites(fn *ssa.Function) []userCallSite {
+	return c.userCallSitesDepth(fn, 0)
+}
+
+func (c *Ctx) userCallSitesDepth(fn *ssa.Function, depth int) []userCallSite {
 	var out []userCallSite
+	// a helper is read in place unless it leads back to fn by plain calls
+	// (the recursion of the printer); deferred recovery routines do not count
+	var back func(g *ssa.Function, seen map[*ssa.Function]bool) bool
+	back = func(g *ssa.Function, seen map[*ssa.Function]bool) bool {
+		if g == fn {
+			return true
+		}
+		if seen[g] || g.Blocks == nil {
+			return false
+		}
+		seen[g] = true
+		for _, b := range g.Blocks {
+			for _, ins := range b.Instrs {
+				if call, ok := ins.(*ssa.Call); ok {
+					if h := call.Common().StaticCallee(); h != nil && c.P.InModule(h) && back(h, seen) {
+						return true
+					}
+				}
+			}
+		}
+		return false
+	}
+	scc := map[*ssa.Function]bool{}
+	_ = scc
 	for _, b := range fn.Blocks {
 		for _, ins := range b.Instrs {
 			ci, ok := ins.(ssa.CallInstruction)
@@ -42,10 +72,34 @@ func (c *Ctx) userCallSites(fn *ssa.Function) []userCallSite {
 				if sealed(cc.Value.Type()) {
 					continue
 				}
-				out = append(out, userCallSite{ci, "method " + cc.Method.Name(), !c.isFmtInterface(cc.Value.Type()), false})
+				out = append(out, userCallSite{ci, "method " + cc.Method.Name(), !c.isFmtInterface(cc.Value.Type()), false, ci, cc.Args})
 				continue
 			}
-			if cc.StaticCallee() != nil {
+			if g := cc.StaticCallee(); g != nil {
+				// a helper of the printer that makes the call: the site is the
+				// call of the helper, the arguments are the inner call's, read
+				// through the helper's parameters
+				if depth < 2 && g.Blocks != nil && c.P.InModule(g) && recvNamed(g) == tPP && (g.Object() == nil || !g.Object().Exported()) && g != fn && !back(g, map[*ssa.Function]bool{}) {
+					for _, in := range c.userCallSitesDepth(g, depth+1) {
+						m := map[ssa.Value]ssa.Value{}
+						for i, p := range g.Params {
+							if i < len(cc.Args) {
+								m[p] = cc.Args[i]
+							}
+						}
+						var args []ssa.Value
+						for _, a := range in.args {
+							base := a
+							if r, ok := m[stripIface(a)]; ok {
+								base = r
+							} else if r, ok := m[a]; ok {
+								base = r
+							}
+							args = append(args, base)
+						}
+						out = append(out, userCallSite{ci, in.what + " (in " + g.Name() + ")", in.specific, in.hook, in.inner, args})
+					}
+				}
 				continue
 			}
 			if _, isB := cc.Value.(*ssa.Builtin); isB {
@@ -54,10 +108,64 @@ func (c *Ctx) userCallSites(fn *ssa.Function) []userCallSite {
 			if _, isMC := cc.Value.(*ssa.MakeClosure); isMC {
 				continue
 			}
-			out = append(out, userCallSite{ci, "func value " + cc.Value.Name(), true, true})
+			out = append(out, userCallSite{ci, "func value " + cc.Value.Name(), true, true, ci, cc.Args})
 		}
 	}
 	return out
+}
+
+// handledBefore: in g, the named boolean result read on the recovery path
+// (or, without one, nothing) holds true when the instruction is reached:
+// a store of true dominates it and no other store follows on the way.
+func handledBefore(g *ssa.Function, at ssa.Instruction) bool {
+	var res *ssa.Alloc
+	if g.Recover != nil {
+		for _, ins := range g.Recover.Instrs {
+			if u, ok := ins.(*ssa.UnOp); ok {
+				if al, ok := u.X.(*ssa.Alloc); ok {
+					res = al
+				}
+			}
+		}
+	}
+	if res == nil {
+		return false
+	}
+	blk := at.Block()
+	ok := false
+	for _, b := range g.Blocks {
+		if !(b == blk || b.Dominates(blk)) {
+			continue
+		}
+		for _, ins := range b.Instrs {
+			if b == blk && ins == at {
+				break
+			}
+			if st, isSt := ins.(*ssa.Store); isSt && st.Addr == ssa.Value(res) {
+				if cst, isC := st.Val.(*ssa.Const); isC && cst.Value != nil && cst.Value.String() == "true" {
+					ok = true
+				} else {
+					ok = false
+				}
+			}
+		}
+	}
+	return ok
+}
+
+// resultBranch: the If that branches on the value of a call (the helper
+// reported whether it entered user code).
+func resultBranch(ci ssa.CallInstruction) *ssa.If {
+	v := ci.Value()
+	if v == nil || v.Referrers() == nil {
+		return nil
+	}
+	for _, ref := range *v.Referrers() {
+		if iff, ok := ref.(*ssa.If); ok {
+			return iff
+		}
+	}
+	return nil
 }
 
 type edge struct{ from, to *ssa.BasicBlock }
@@ -183,6 +291,14 @@ func ruleC17a(c *Ctx) []*report.Result {
 	// fmt sites: unreachable when the shortcut and the failing edges of a specific site's guards are cut
 	for _, s := range spec {
 		gs := guardsOf(fn, s.call.Block())
+		if s.inner != s.call {
+			// the test and the call sit in a helper that reports, as its
+			// result, whether it made the call: "the test failed" is the
+			// false edge of the branch on that result
+			if iff := resultBranch(s.call); iff != nil && handledBefore(s.inner.Parent(), s.inner) {
+				gs = append(gs, edge{iff.Block(), iff.Block().Succs[1]})
+			}
+		}
 		if len(gs) == 0 {
 			r.Fail("(*internal/rfmt.pp).handleMethods / guard of "+s.what, c.P.Pos(s.call.Pos()), "no type/nil test guards "+s.what, nil, "")
 			continue
@@ -276,7 +392,7 @@ func ruleC17b(c *Ctx) []*report.Result {
 	}
 	isPrinter := func(v ssa.Value) bool { return stripIface(v) == ssa.Value(recv) }
 	for _, s := range c.userCallSites(fn) {
-		args := s.call.Common().Args
+		args := s.args
 		construct := "(*internal/rfmt.pp).handleMethods / arguments of " + s.what
 		p := c.P.Pos(s.call.Pos())
 		switch {
@@ -394,7 +510,7 @@ func ruleC17e(c *Ctx) []*report.Result {
 	var hook *ssa.Global
 	for _, s := range c.userCallSites(hm) {
 		if s.hook {
-			if u, ok := s.call.Common().Value.(*ssa.UnOp); ok {
+			if u, ok := s.inner.Common().Value.(*ssa.UnOp); ok {
 				if g, ok := u.X.(*ssa.Global); ok {
 					hook = g
 				}
@@ -416,7 +532,7 @@ func ruleC17e(c *Ctx) []*report.Result {
 					}
 				case *ssa.UnOp:
 					if x.X == ssa.Value(hook) {
-						r.Check(fn == hm, shortFn(fn.String())+" / reads "+hook.Name(), c.P.Pos(x.Pos()), "the hook variable is read outside the dispatcher")
+						r.Check(fn == hm || (recvNamed(fn) == tPP && c.reach(hm, false)[fn]), shortFn(fn.String())+" / reads "+hook.Name(), c.P.Pos(x.Pos()), "the hook variable is read outside the dispatcher")
 					}
 				}
 			}
@@ -455,6 +571,13 @@ func ruleC11g(c *Ctx) []*report.Result {
 		return []*report.Result{r}
 	}
 	for _, s := range c.userCallSites(fn) {
+		if s.inner != s.call {
+			// made by a helper with its own recovery: the helper's result is
+			// true when the call is entered, and the dispatcher branches on it
+			okH := handledBefore(s.inner.Parent(), s.inner) && resultBranch(s.call) != nil
+			r.Check(okH, "(*internal/rfmt.pp).handleMethods / handled set before "+s.what, c.P.Pos(s.inner.Pos()), "the helper that calls "+s.what+" does not report the operand as handled on its recovery path (or the dispatcher ignores its result)")
+			continue
+		}
 		blk := s.call.Block()
 		ok := false
 		for _, b := range fn.Blocks {
@@ -556,13 +679,60 @@ func ruleC08c(c *Ctx) []*report.Result {
 	if j == nil {
 		r.Fail("redact.Join", "util.go", "not found", nil, "")
 	} else {
-		calls, straight := callsInOrder(j)
+		// Join fills a fresh builder through JoinTo, or through Print calls
+		// of its own whose operand is the delimiter or an element, both as
+		// they are, and returns the builder's RedactableString()
 		var names []string
-		for _, ci := range calls {
-			names = append(names, calleeName(ci))
+		okJ, wrote, took := true, false, false
+		why := ""
+		for _, b := range j.Blocks {
+			for _, ins := range b.Instrs {
+				ci, ok := ins.(ssa.CallInstruction)
+				if !ok {
+					continue
+				}
+				n := calleeName(ci)
+				names = append(names, n)
+				switch {
+				case strings.HasSuffix(n, "JoinTo"):
+					wrote = true
+				case strings.HasSuffix(n, ".RedactableString"):
+					took = true
+				case strings.HasSuffix(n, ".Print") || n == "invoke Print":
+					wrote = true
+					args := ci.Common().Args
+					el := singleVariadicElem(args[len(args)-1])
+					okOp := false
+					if el != nil {
+						v := stripIface(el)
+						for _, p := range j.Params {
+							if v == ssa.Value(p) {
+								okOp = true // the delimiter
+							}
+						}
+						if u, ok := v.(*ssa.UnOp); ok {
+							if ia, ok := u.X.(*ssa.IndexAddr); ok {
+								if _, isP := ia.X.(*ssa.Parameter); isP {
+									okOp = true // an element
+								}
+							}
+						}
+					}
+					if !okOp {
+						okJ, why = false, "a Print in Join does not print the delimiter or an element as it is"
+					}
+				case strings.HasPrefix(n, "builtin "):
+				default:
+					if f := ci.Common().StaticCallee(); f != nil && c.P.InModule(f) && c.reachesWriter(f) {
+						okJ, why = false, "Join writes through "+n
+					}
+				}
+			}
 		}
-		okJ := straight && len(names) == 2 && strings.HasSuffix(names[0], "JoinTo") && strings.HasSuffix(names[1], "RedactableString")
-		r.Check(okJ, "redact.Join / builder + JoinTo", c.P.Pos(j.Pos()), "Join must be JoinTo into a fresh builder followed by RedactableString(): "+strings.Join(names, ","))
+		if okJ && !(wrote && took) {
+			okJ, why = false, "Join must write through JoinTo/Print and return RedactableString()"
+		}
+		r.Check(okJ, "redact.Join / builder + JoinTo", c.P.Pos(j.Pos()), why+": "+strings.Join(names, ","))
 	}
 	return []*report.Result{r}
 }
@@ -705,7 +875,7 @@ func ruleC17f(c *Ctx) []*report.Result {
 	if hm != nil {
 		for _, s := range c.userCallSites(hm) {
 			if s.hook {
-				if u, ok := s.call.Common().Value.(*ssa.UnOp); ok {
+				if u, ok := s.inner.Common().Value.(*ssa.UnOp); ok {
 					if g, ok := u.X.(*ssa.Global); ok {
 						regs = append(regs, registry{g, "hook"})
 					}
